@@ -144,7 +144,10 @@ func (t *Transport) DialPeer(ctx context.Context, peerID peer.ID, as string) (li
 		// report the existing link: the caller records the link it was given
 		// and dials again when that link is lost.
 		if elnk, elnkOk := t.LookupLinkWithAddr(as); elnkOk && elnk.GetRemotePeer() == peerID {
-			return elnk, false, nil
+			// a link whose session has ended is about to be removed: dial.
+			if elnk.sess == nil || elnk.sess.Context().Err() == nil {
+				return elnk, false, nil
+			}
 		}
 		// the link went away in the meantime: dial.
 	}
